@@ -19,6 +19,8 @@ import CalVerif.Spec.NumFmt
                                  → one result letter per XF (`Formats.xlsxStyles/xlsbStyles/xlsStyles`), or `panic`;
                                    defs = `id:hexfmt,…` (or `-`), xfs = `id,…` (or `-`); for xlsx the ids are sent to
                                    the model as their decimal text, as the reader sees them
+    xlsxcell <class letters of the XF table> <hex of the s attribute | absent>
+                                 → D | T | N (plain number: class Other or index past the table)   (`Formats.xlsxCellFormat`)
     sweepids <prefix hex> <suffix hex> <lo> <hi>
                                  → FNV-64 over the result letters of `builtinById (prefix ++ decimal n ++ suffix)` -/
 
@@ -185,6 +187,16 @@ def handle (line : String) : String :=
       else if kind == "xls" then stylesReply (xlsStyles defs xfs)
       else "bad-op"
     | _, _ => "bad-op"
+  | ["xlsxcell", tbl, sattr] =>
+    let fmts : List CellFormat := tbl.toList.filterMap fun c =>
+      if c == 'D' then some .dateTime else if c == 'T' then some .timeDelta else if c == 'O' then some .other else none
+    let sv : Option (Option (List UInt8)) := if sattr == "absent" then some none else (Wire.bytesOfHex sattr).map some
+    match sv with
+    | some sv => match xlsxCellFormat fmts sv with
+      | some .dateTime => "D"
+      | some .timeDelta => "T"
+      | _ => "N"
+    | none => "bad-op"
   | ["sweep", len, lo, hi] => match len.toNat?, lo.toNat?, hi.toNat? with
     | some len, some lo, some hi => hex64 (sweep len lo hi)
     | _, _, _ => "bad-op"
